@@ -53,19 +53,99 @@ def add_axiom(name, formula):
         AXIOM_SYMS.append(uninterpreted_symbols(formula))
 
 
+_SYMS_MEMO = {}
+
+
 def relevant_axioms(constraints):
     """Only the axioms that talk about a function symbol of the query (quantifiers make unrelated queries `unknown`)."""
     if not AXIOMS:
         return []
-    used, seen = set(), set()
+    used = set()
     for c in constraints:
         if z3.is_expr(c):
-            uninterpreted_symbols(c, used, seen)
+            k = c.get_id()
+            if k not in _SYMS_MEMO:
+                _SYMS_MEMO[k] = (uninterpreted_symbols(c), c)
+            used |= _SYMS_MEMO[k][0]
     return [a for a, syms in zip(AXIOMS, AXIOM_SYMS) if syms & used]
+
+
+SLOWLOG = float(os.environ.get("PYVC_SLOWLOG") or 0)
 
 
 def check(constraints, timeout_ms=None, want_model=False, use_axioms=True):
     """Return ('sat'|'unsat'|'unknown', model-or-None, seconds)."""
+    t00 = time.time()
+    r = _check(constraints, timeout_ms, want_model, use_axioms)
+    if SLOWLOG and time.time() - t00 > SLOWLOG:
+        import sys
+
+        print(f"[slow query {time.time() - t00:.1f}s -> {r[0]}; {len(constraints)} constraints; last: {str(constraints[-1])[:300]!r}]", file=sys.stderr)
+    return r
+
+
+def _is_strvar(e):
+    return z3.is_const(e) and e.decl().kind() == z3.Z3_OP_UNINTERPRETED and e.sort() == z3.StringSort()
+
+
+_REGEX_MEMO = {}
+
+
+def _as_regex(f):
+    """(var, R) with f <=> InRe(var, R) when f is a boolean combination of memberships of ONE string variable; else None."""
+    k = f.get_id()
+    if k not in _REGEX_MEMO:
+        _REGEX_MEMO[k] = (_as_regex0(f), f)
+    return _REGEX_MEMO[k][0]
+
+
+def _as_regex0(f):
+    if z3.is_app(f):
+        k = f.decl().kind()
+        if k == z3.Z3_OP_SEQ_IN_RE and _is_strvar(f.arg(0)):
+            return f.arg(0), f.arg(1)
+        if k == z3.Z3_OP_NOT:
+            r = _as_regex(f.arg(0))
+            return (r[0], z3.Complement(r[1])) if r else None
+        if k in (z3.Z3_OP_AND, z3.Z3_OP_OR) and f.num_args() > 0:
+            parts = [_as_regex(c) for c in f.children()]
+            if all(parts) and len({p[0].get_id() for p in parts}) == 1:
+                rs = [p[1] for p in parts]
+                if len(rs) == 1:
+                    return parts[0][0], rs[0]
+                return parts[0][0], (z3.Intersect(*rs) if k == z3.Z3_OP_AND else z3.Union(*rs))
+    return None
+
+
+def normalize(constraints):
+    """Merges all pure regex-membership constraints of one string variable into a single membership
+    InRe(v, R1 & R2 & ~R3 ...): z3 decides one membership instantly but may answer `unknown` on many separate ones."""
+    per_var, order, rest = {}, [], []
+    for c in constraints:
+        cs = c.children() if z3.is_app(c) and c.decl().kind() == z3.Z3_OP_AND else [c]
+        for x in cs:
+            r = _as_regex(x) if z3.is_expr(x) else None
+            if r is None:
+                rest.append(x)
+            else:
+                if r[0].get_id() not in per_var:
+                    per_var[r[0].get_id()] = (r[0], [])
+                    order.append(r[0].get_id())
+                per_var[r[0].get_id()][1].append(r[1])
+    out = list(rest)
+    for vid in order:
+        v, rs = per_var[vid]
+        uniq, seen = [], set()
+        for r in rs:
+            if r.get_id() not in seen:
+                seen.add(r.get_id())
+                uniq.append(r)
+        out.append(z3.InRe(v, uniq[0] if len(uniq) == 1 else z3.Intersect(*uniq)))
+    return out
+
+
+def _check(constraints, timeout_ms=None, want_model=False, use_axioms=True):
+    constraints = normalize(list(constraints))
     s = z3.Solver()
     s.set("timeout", timeout_ms or DEFAULT_TIMEOUT_MS)
     constraints = [c for c in constraints]
@@ -110,9 +190,15 @@ def reachable(pc):
 
 
 def valid(pc, goal, want_model=True):
-    """Is ``pc => goal`` valid?  Returns ('proved'|'refuted'|'unknown', model, seconds)."""
-    r, m, dt = check(list(pc) + [z3.Not(goal)], want_model=want_model)
-    return {"unsat": "proved", "sat": "refuted"}.get(r, "unknown"), m, dt
+    """Is ``pc => goal`` valid?  Returns ('proved'|'refuted'|'unknown', model, seconds).  A conjunction is checked conjunct by conjunct."""
+    goals = goal.children() if z3.is_app(goal) and goal.decl().kind() == z3.Z3_OP_AND and goal.num_args() > 0 else [goal]
+    total = 0.0
+    for g in goals:
+        r, m, dt = check(list(pc) + [z3.Not(g)], want_model=want_model)
+        total += dt
+        if r != "unsat":
+            return {"sat": "refuted"}.get(r, "unknown"), m, total
+    return "proved", None, total
 
 
 def check_cvc5(smt2_text, timeout_ms):
